@@ -10,9 +10,12 @@ CONSTANTS
   Targets = {1, 2, 3}
   DnsPort = {2}
   Allowed = {1, 2}
+  Unsendable = {}
+  DisarmFirst = TRUE
   Fam <- MCFam
   DgAlpha <- DgC03
   RpAlpha <- RpC03
+  MidAlpha <- NoMid
   Sync = TRUE
   T = 2
   DNST = 3
